@@ -17,6 +17,7 @@ import IcontractModel.Lemmas.ReevalMain
 import IcontractModel.Lemmas.ReprLines
 import IcontractModel.Lemmas.ReevalCounterexamples
 import IcontractModel.Lemmas.Lookup
+import IcontractModel.AllTrace
 namespace Icontract.Ex
 
 /-- **The re-evaluator computes, node by node, exactly what Python computes.**  For every well-formed
@@ -73,5 +74,54 @@ theorem C06_names_resolve_as_in_python (ls : List (List (String × Val))) (n : S
 /-- non-vacuity: a name bound in all three look-ups -/
 example : lookupT (Tbl.ofLookups [[("x", .int 1)], [("x", .int 2), ("c", .int 5)], [("x", .int 3), ("c", .int 6), ("g", .int 7)]]) "c"
     = some (some (.int 5)) := by rfl
+
+end Icontract.Ex
+
+namespace Icontract.Ex
+
+/-- **The reported example of a failing `all(...)` is the first falsifying assignment**: it occurs in the iteration,
+the element is falsy for it, and the element is truthy for every assignment before it. -/
+theorem C06_all_example_is_first_falsifying {A : Type} (elt : A → Except String Bool) (xs : List A) (a : A)
+    (h : traceAll elt xs = .ok (some a)) :
+    ∃ pre post, xs = pre ++ a :: post ∧ elt a = .ok false ∧ ∀ b ∈ pre, elt b = .ok true := by
+  induction xs with
+  | nil => simp [traceAll] at h
+  | cons x rest ih =>
+    unfold traceAll at h
+    cases hx : elt x with
+    | error e => simp [hx, bind, Except.bind] at h
+    | ok b =>
+      cases b with
+      | false =>
+        simp [hx, bind, Except.bind, pure, Except.pure] at h
+        subst h
+        exact ⟨[], rest, rfl, hx, by simp⟩
+      | true =>
+        simp [hx, bind, Except.bind] at h
+        obtain ⟨pre, post, hsplit, hfa, hpre⟩ := ih h
+        refine ⟨x :: pre, post, by simp [hsplit], hfa, ?_⟩
+        intro b hb
+        cases hb with
+        | head => exact hx
+        | tail _ hb => exact hpre b hb
+
+/-- ... and an example is reported exactly when Python's `all(...)` is `False`; when it is `True` there is none -/
+theorem C06_all_example_iff_python_false {A : Type} (elt : A → Except String Bool) (xs : List A) :
+    (pyAll elt xs = .ok false ↔ ∃ a, traceAll elt xs = .ok (some a)) ∧
+    (pyAll elt xs = .ok true ↔ traceAll elt xs = .ok none) ∧
+    (∀ e, pyAll elt xs = .error e ↔ traceAll elt xs = .error e) := by
+  induction xs with
+  | nil => simp [pyAll, traceAll]
+  | cons x rest ih =>
+    unfold pyAll traceAll
+    cases hx : elt x with
+    | error e => simp [bind, Except.bind]
+    | ok b =>
+      cases b with
+      | false => simp [bind, Except.bind, pure, Except.pure]
+      | true => simpa [bind, Except.bind] using ih
+
+/-- non-vacuity -/
+example : traceAll (fun n : Nat => .ok (n < 3)) [0, 1, 2, 5, 1, 7] = .ok (some 5) := by rfl
 
 end Icontract.Ex
